@@ -782,3 +782,69 @@ Proof.
   unfold emacs_tokens, emacs_sexp. cbn [sexp_parse].
   rewrite parse_xacts. cbn [sexp_parse]. rewrite app_nil_r, rev_involutive. reflexivity.
 Qed.
+
+(* ------------------------------------------------------------------------------------------ *)
+(* the repair proposed for finding F10: fn_quoted also writes a backslash as two backslashes
+   (the same escaping as emacs.cc escape_string).  With it the backslash reader recovers every
+   row, whatever the fields hold.                                                              *)
+
+Definition csv_quoted_patched (s : str) : str := 34 :: flat_map esc1 s ++ [34].
+
+Definition csv_text_patched (rows : list (list str)) : str :=
+  flat_map (fun row => intercalate [44] (map csv_quoted_patched row) ++ [10]) rows.
+
+Lemma bs_body_patched f : forall acc row r,
+  csv_bs BsQ acc row (flat_map esc1 f ++ 34 :: r) = csv_bs BsEnd (acc ++ f) row r.
+Proof.
+  induction f as [|x f IH]; intros acc row r.
+  - cbn. rewrite app_nil_r. reflexivity.
+  - cbn [flat_map]. unfold esc1 at 1.
+    destruct (Z.eqb_spec x 92) as [->|Hn].
+    + cbn [app csv_bs]. cbn. rewrite IH. rewrite <- app_assoc. reflexivity.
+    + destruct (Z.eqb_spec x 34) as [->|Hq].
+      * cbn [app csv_bs]. cbn. rewrite IH. rewrite <- app_assoc. reflexivity.
+      * cbn [app csv_bs].
+        destruct (Z.eqb_spec x 34); [contradiction|].
+        destruct (Z.eqb_spec x 92); [contradiction|].
+        rewrite IH. rewrite <- app_assoc. reflexivity.
+Qed.
+
+Lemma bs_cell_patched_comma f fld row r :
+  csv_bs BsStart fld row (csv_quoted_patched f ++ 44 :: r) = csv_bs BsStart [] (row ++ [f]) r.
+Proof.
+  unfold csv_quoted_patched. cbn [app csv_bs]. cbn. rewrite <- app_assoc. cbn [app].
+  rewrite bs_body_patched. reflexivity.
+Qed.
+
+Lemma bs_cell_patched_newline f fld row r :
+  csv_bs BsStart fld row (csv_quoted_patched f ++ 10 :: r)
+  = option_map (cons (row ++ [f])) (csv_bs BsStart [] [] r).
+Proof.
+  unfold csv_quoted_patched. cbn [app csv_bs]. cbn. rewrite <- app_assoc. cbn [app].
+  rewrite bs_body_patched. reflexivity.
+Qed.
+
+Lemma bs_row_patched cells : forall row0 r,
+  cells <> [] ->
+  csv_bs BsStart [] row0 ((intercalate [44] (map csv_quoted_patched cells) ++ [10]) ++ r)
+  = option_map (cons (row0 ++ cells)) (csv_bs BsStart [] [] r).
+Proof.
+  induction cells as [|c cells IH]; intros row0 r Hne; [contradiction|].
+  destruct cells as [|d cells].
+  - cbn [map intercalate]. rewrite <- app_assoc. cbn [app]. apply bs_cell_patched_newline.
+  - change (intercalate [44] (map csv_quoted_patched (c :: d :: cells)))
+      with (csv_quoted_patched c ++ [44] ++ intercalate [44] (map csv_quoted_patched (d :: cells))).
+    rewrite <- !app_assoc. cbn [app]. rewrite bs_cell_patched_comma.
+    change (10 :: r) with ([10] ++ r). rewrite app_assoc.
+    etransitivity; [apply (IH (row0 ++ [c]) r); discriminate|].
+    rewrite <- app_assoc. reflexivity.
+Qed.
+
+Lemma csv_patched_read_lemma rows :
+  Forall (fun row => row <> []) rows -> csv_read_bs (csv_text_patched rows) = Some rows.
+Proof.
+  unfold csv_read_bs, csv_text_patched.
+  induction rows as [|row rows IH]; intros H; [reflexivity|].
+  inversion H as [|? ? Hne Hrest]; subst.
+  cbn [flat_map]. rewrite (bs_row_patched row [] _ Hne). rewrite (IH Hrest). reflexivity.
+Qed.
